@@ -74,8 +74,50 @@ def bounded(f, ev, name):
     return False
 
 
+BITS = {'uint8_t': 8, 'int8_t': 8, 'char': 8, 'unsigned char': 8, 'EbBool': 8, 'uint16_t': 16, 'int16_t': 16, 'short': 16, 'unsigned short': 16,
+        'int': 32, 'int32_t': 32, 'uint32_t': 32, 'unsigned int': 32, 'unsigned': 32, 'int64_t': 64, 'uint64_t': 64, 'long': 64, 'unsigned long': 64, 'size_t': 64}
+
+
 def run(P, rep, tier):
     C = Classes(P)
+    _ft = {}
+    for rn, r in P.records.items():
+        for fd in r.get('fields', ()):
+            _ft[rn + '.' + fd['n']] = fd.get('t', '')
+
+    def arg_bits(f, a):
+        """width of the C type of an argument expression (declared types of locals / parameters / members; arithmetic is int)"""
+        a0 = a
+        while a0 and a0[0] == 'k':
+            t = a0[1].replace('const ', '').strip()
+            if t in BITS:
+                return BITS[t]                  # an explicit cast states the width
+            a0 = a0[2]
+        a = strip(a)
+        if not a:
+            return 32
+        if a[0] == 'v':
+            for pn, pt in f.params:
+                if pn == a[1]:
+                    return BITS.get(pt.replace('const ', '').strip(), 32)
+            for d in f.events(('decl',)):
+                if d['n'] == a[1]:
+                    return BITS.get(d.get('t', '').replace('const ', '').strip(), 32)
+            return 32
+        if a[0] == 'm':
+            return BITS.get(_ft.get(a[1], '').replace('const ', '').strip(), 32)
+        if a[0] == 'u' and a[1] == '*':
+            b = strip(a[2])
+            if b[0] == 'v':
+                for pn, pt in f.params:
+                    if pn == b[1]:
+                        return BITS.get(pt.replace('const ', '').replace('*', '').strip(), 32)
+            return 32
+        if a[0] == 'l':
+            return 8 if 0 <= a[1] <= 255 else 32
+        if a[0] == 'i':
+            return 8 if strip(a[1])[0] == 'v' and strip(a[1])[1] == TABLE else 32
+        return 32
     rck = P.fn('rate_control_kernel')
     recode = P.fn('recode_loop_decision_maker')
     enc = [f for f in P.fns if f.lib == 'Encoder' and not f.nocfg and f not in C.dead]
@@ -126,6 +168,33 @@ def run(P, rep, tier):
             return {'UNKNOWN:clip to other bounds %s..%s' % (pstr(lo)[:30], pstr(hi)[:30])}
         if e[0] == 'l':
             return {'RESET'} if 0 <= e[1] <= 255 else {'UNKNOWN:literal'}
+        if e[0] == 'c':
+            # clamp helper: a function each of whose returns is CLIP3(bounds, parameter).  The clamp only means something if the
+            # value reaches it unconverted: an arithmetic argument handed to a parameter narrower than int wraps first.
+            n = callee_name(e)
+            tg = [g for g in (P.resolve(n, f) if n else []) if not g.nocfg]
+            if len(tg) == 1:
+                g = tg[0]
+                rets = [r for r in g.events(('ret',)) if r.get('e') is not None]
+                c3s = [clip3(strip(r['e'])) for r in rets]
+                if rets and all(c3s):
+                    kinds = set()
+                    for lo, hi, x in c3s:
+                        if is_table(lo, CFG_MIN) and is_table(hi, CFG_MAX):
+                            kind = 'CLAMP_IDX'
+                        elif last_field(lo) == CFG_MIN and last_field(hi) == CFG_MAX:
+                            kind = 'CLAMP_QP'
+                        else:
+                            kind = 'UNKNOWN:%s clips to other bounds' % g.name
+                        x = strip(x)
+                        if x[0] == 'v' and x[2].startswith('p') and x[2][1:].isdigit() and int(x[2][1:]) < len(e[2]):
+                            i = int(x[2][1:])
+                            pt = g.params[i][1].replace('const ', '').strip()
+                            a = strip(e[2][i])
+                            if BITS.get(pt, 32) < arg_bits(f, a):
+                                kind = 'UNKNOWN:%s is converted to %s before %s clamps it (a value outside the range of %s wraps and is clamped to the wrong end)' % (pstr(a)[:40], pt, g.name, pt)
+                        kinds.add(kind)
+                    return kinds
         if e[0] == 'i' and strip(e[1]) and strip(e[1])[0] == 'v' and strip(e[1])[1] == TABLE:
             sub = classify(f, at, e[2], state, depth + 1)
             out = set()
@@ -327,14 +396,14 @@ def run(P, rep, tier):
             rep.ob('C18.UPSTREAM', '%s/%s<-%s' % (f.name, lf.split('.')[0], pstr(rhs)[:40] if rhs is not None else pstr(e)[:40]), ok, f.loc(ev), why)
     rep.floor('C18.UPSTREAM', 4)
 
-    # ---------------- PLUMB: the bounds the clamps use are the bounds the user configured.  copy_api_from_app may replace them
-    # by the full range only for fixed-QP encoding (rate_control_mode == 0); for every rate-control mode the members are copies
-    # of the caller's values.  Decided by conditional constant propagation of copy_api_from_app under rate_control_mode = 1, 2.
+    # ---------------- PLUMB: the bounds the clamps use are the bounds the user configured, in every rate-control mode (the
+    # property's quantifier includes mode 0 with QP scaling).  Decided by conditional constant propagation of copy_api_from_app
+    # under rate_control_mode = 0, 1, 2.  Mode 0 replaces them by 1..63 today: replayed, known finding (design decision).
     from rules.C20 import sccp, _ev
     cap = P.fn('copy_api_from_app')
     RCM = 'EbSvtAv1EncConfiguration.rate_control_mode'
     npl = 0
-    for mode in (1, 2):
+    for mode in (0, 1, 2):
         ins, tr = sccp(cap, {RCM: mode})
         for fld in (CFG_MIN, CFG_MAX):
             sts = [ev for ev in cap.events(('st',)) if ev['e'][0] == 'a' and strip(ev['e'][2])[0] == 'm' and strip(ev['e'][2])[1] == fld and ev['b'] in ins]
@@ -347,7 +416,7 @@ def run(P, rep, tier):
                 npl += 1
                 val = _ev(ev['e'][3], {RCM: mode}, dict(cap.state_at(ins, tr, ev) or ()))
                 ok = val is None and fld in fields_in(ev['e'][3])
-                rep.ob('C18.PLUMB', 'copy_api_from_app/%s|rc=%d#%d' % (fld.split('.')[1], mode, npl), ok, cap.loc(ev),
+                rep.ob('C18.PLUMB', 'copy_api_from_app/%s|rc=%d' % (fld.split('.')[1], mode), ok, cap.loc(ev),
                        ('with rate_control_mode = %d static_config.%s is the caller\'s value' % (mode, fld.split('.')[1])) if ok else
                        ('with rate_control_mode = %d static_config.%s evaluates to %s instead of the caller\'s value: every clamp then uses bounds the user did not configure'
                         % (mode, fld.split('.')[1], val if val is not None else pstr(strip(ev['e'][3]))[:40])))
